@@ -138,6 +138,13 @@ class Shape:
             other = ', '.join(f"n{k}(1)" for k in range(self.nph))
             c = self.constraint_text(lambda k: f"n{k}")
             return f"M DEFINITIONS AUTOMATIC TAGS ::= BEGIN Aa ::= INTEGER {{ {other} }} T ::= INTEGER {{ {own} }} {c} END"
+        if self.context in ('named-clash-ref', 'named-clash-ref-component'):
+            # the integers are named numbers of the REFERENCED type Zed; Aa (sorting before it) declares the same names
+            own = ', '.join(f"n{k}({val(k)})" for k in range(self.nph))
+            other = ', '.join(f"n{k}(1)" for k in range(self.nph))
+            c = self.constraint_text(lambda k: f"n{k}")
+            t = f"T ::= Zed {c}" if self.context == 'named-clash-ref' else f"T ::= SEQUENCE {{ a Zed {c} }}"
+            return f"M DEFINITIONS AUTOMATIC TAGS ::= BEGIN Aa ::= INTEGER {{ {other} }} Zed ::= INTEGER {{ {own} }} {t} END"
         c = self.constraint_text(val)
         base = self.size_of or 'INTEGER'
         if self.size_of in ('SEQUENCE OF', 'SET OF'):
@@ -256,6 +263,10 @@ def shapes(tier, contexts=('assign', 'component'), size_types=()):
     for k in ks[:4]:
         out.append(Shape([ESet([mk_elem(k)], [], False)], 'named-clash'))
     out.append(Shape([ESet([mk_elem(('range', 'lo', 'hi'))], [], True)], 'named-clash'))
+    for ctx in ('named-clash-ref', 'named-clash-ref-component'):
+        for k in ks[:3]:
+            out.append(Shape([ESet([mk_elem(k)], [], False)], ctx))
+        out.append(Shape([ESet([mk_elem(('range', 'lo', 'hi'))], [], True)], ctx))
     for st in size_types:
         sz = [lambda: ESet([mk_elem(('single',))], [], False), lambda: ESet([mk_elem(('single',))], [], True),
               lambda: ESet([mk_elem(('range', 'lo', 'hi'))], [], False), lambda: ESet([mk_elem(('range', 'lo', 'hi'))], [], True),
@@ -361,9 +372,9 @@ def locate(items, shape):
     t = structs.get('T')
     if t is None:
         return None
-    if shape.context in ('assign', 'ref', 'valref', 'named-clash'):
+    if shape.context in ('assign', 'ref', 'valref', 'named-clash', 'named-clash-ref'):
         return t.rasn_items(), t.fields[0].ty if t.fields else [], which
-    if shape.context in ('component', 'valref-component'):
+    if shape.context in ('component', 'valref-component', 'named-clash-ref-component'):
         fld = [f for f in t.fields if f.name == 'a']
         if not fld:
             return None
@@ -466,7 +477,7 @@ def check_shape(chk, gen, runner, shape, want, stats):
             m = chk.holds(r.pc, z3.Implies(perm, E.contains(x)), 'soundness')
             if m:
                 report(chk, sr, shape, m, x, f"C04 soundness {role}", 'emitted bound excludes a value the constraint permits', 'soundness')
-            elif shape.context != 'ref':
+            elif shape.context not in ('ref',):
                 # FixedOctetString / FixedBitString parameters count as the emitted size
                 fixed = fixed_size(ty)
                 if fixed is not None and ann is None:
@@ -488,7 +499,7 @@ def check_shape(chk, gen, runner, shape, want, stats):
                 m = chk.holds(r.pc, z3.Implies(nonempty(eff), z3.And(z3.Not(rext_strict), eff.lo_fin, eff.hi_fin)), 'fixed-width-precondition')
                 if m:
                     report(chk, sr, shape, m, x, f"C06 fixed-width-unjustified {role}", f'fixed-width {tname} although the constraint is extensible or has an infinite bound', 'fixed')
-            elif tname == 'Integer' or shape.context in ('ref',):
+            elif tname == 'Integer' or shape.context in ('ref', 'named-clash-ref', 'named-clash-ref-component'):
                 chk.witness('Integer chosen')
             else:
                 chk.res.inconclusive.append(f"{role}: unexpected integer type tokens {tokproj.safe_str(tokproj.TS(ty))}")
